@@ -644,6 +644,13 @@ main(int argc, char **argv) {
       status = -1;
     } else {
       builder.write_code(output_code, the_output_include, def);
+
+      // A write may have failed at any point (e.g. the device is full).
+      output_code.flush();
+      if (output_code.fail()) {
+        nout << "Error writing to " << output_code_filename << "\n";
+        status = -1;
+      }
     }
   }
 
@@ -661,6 +668,12 @@ main(int argc, char **argv) {
       status = -1;
     } else {
       InterrogateDatabase::get_ptr()->write(output_data, def);
+
+      output_data.flush();
+      if (output_data.fail()) {
+        nout << "Error writing to " << output_data_filename << "\n";
+        status = -1;
+      }
     }
   }
 
@@ -673,6 +686,12 @@ main(int argc, char **argv) {
       status = -1;
     } else {
       InterrogateDatabase::get_ptr()->write_text(output_text);
+
+      output_text.flush();
+      if (output_text.fail()) {
+        nout << "Error writing to " << output_text_filename << "\n";
+        status = -1;
+      }
     }
   }
 
